@@ -317,7 +317,7 @@ FLOORS = {
                      'feat:multi-line-value': 7100, 'feat:marker-trailing-blank-or-cr': 24000,
                      'feat:name-starts-digit': 850, 'feat:name-starts-punct': 2700, 'api:Dsc': 31000,
                      'api:Changes': 31000, 'api:Deb822': 67000, 'api:iter_paragraphs': 98000, 'dump:str': 490,
-                     'dump:fd_b': 490, 'dump:fd_b_enc': 490, 'dump:fd_t': 490, 'doc:paragraphs>=2': 920,
+                     'dump:fd_b': 490, 'dump:fd_b_enc': 490, 'dump:fd_t': 490, 'doc:paragraphs>=2': 730,
                      'form:tw': 22000, 'form:tf': 22000, 'enc:utf-8': 7100, 'enc:UTF-8': 7000,
                      'enc:iso-8859-1': 4500, 'enc:latin-1': 4400, 'enc:cp1252': 11000, 'enc:utf-16': 10000,
                      'enc-nonascii:utf-8': 4400, 'enc-nonascii:UTF-8': 4400, 'enc-nonascii:iso-8859-1': 1700,
@@ -382,7 +382,7 @@ UNI_FLOORS = {
     'quick': {
         'not-nfc': {'Deb822': (570, 280, 140, 0, 140), 'iter_paragraphs': (1000, 520, 260, 0, 260),
                     'Dsc': (280, 140, 71, 0, 0), 'Changes': (280, 140, 71, 0, 0)},
-        'not-nfd': {'Deb822': (3900, 1900, 990, 1100, 990), 'iter_paragraphs': (6900, 3400, 1700, 1800, 1700),
+        'not-nfd': {'Deb822': (3900, 1900, 990, 1100, 990), 'iter_paragraphs': (5500, 2800, 1400, 1500, 1400),
                     'Dsc': (1900, 990, 490, 580, 0), 'Changes': (1900, 990, 490, 580, 0)},
         'compat': {'Deb822': (900, 450, 220, 150, 220), 'iter_paragraphs': (1600, 830, 410, 250, 410),
                    'Dsc': (450, 220, 110, 75, 0), 'Changes': (450, 220, 110, 75, 0)},
@@ -610,6 +610,163 @@ ARMOR_CONT = [' see -----END PGP SIGNATURE----- below', ' -----BEGIN PGP SIGNED 
               ' see -----BEGIN PGP SIGNED MESSAGE-----', ' -----END PGP SIGNATURE-----']
 ARMOR_MARK = re.compile(r'-----(?:BEGIN|END) PGP [^-]+-----')
 ARMOR_POSITIONS = ('first-whole', 'first-start', 'first-mid', 'first-end', 'cont-whole', 'cont-start', 'cont-mid', 'cont-end')
+# Floors of the "mv" extension (Dsc / Changes shaped documents: structured fields in every layout, armour-word mentions).  GENERATED
+# from evidence files: ~50% of the minimum measured on the current tree over VERIF_SEED 0..3 (thorough: seed 0), a quarter (at least 1)
+# where that minimum is below 40.  mv:<layout>:<API> = forms of documents holding a structured field in that layout, read through
+# that API; mv:redump:<layout>:<class> = second rounds (dump by the class + re-read); armorword:<position>:<plain|armour> /
+# armorword:<plain|armour>:<API> / armorword:whole-document-as-one-<str|bytes>:<API> = forms of documents whose text fields mention
+# armour words.  A run that never exercises one of these cells is INCONCLUSIVE, not held.  No floors on mv:exposed-as:* (how a class
+# exposes a structured field is its choice) and mv:redump-not-applicable:*.
+MV_FLOORS = {
+    'quick': {
+        'counters': {'armorword:armour:Changes': 180, 'armorword:armour:Changes.iter_paragraphs': 180,
+                     'armorword:armour:Deb822': 200, 'armorword:armour:Dsc': 180,
+                     'armorword:armour:Dsc.iter_paragraphs': 180, 'armorword:armour:iter_paragraphs': 200,
+                     'armorword:cont-end:armour': 260, 'armorword:cont-end:plain': 620, 'armorword:cont-mid:armour':
+                     140, 'armorword:cont-mid:plain': 300, 'armorword:cont-start:armour': 59,
+                     'armorword:cont-start:plain': 120, 'armorword:cont-whole:armour': 510,
+                     'armorword:cont-whole:plain': 1000, 'armorword:doc-with:cont-end': 5,
+                     'armorword:doc-with:cont-mid': 2, 'armorword:doc-with:cont-start': 1,
+                     'armorword:doc-with:cont-whole': 8, 'armorword:doc-with:first-end': 3,
+                     'armorword:doc-with:first-mid': 2, 'armorword:doc-with:first-start': 1,
+                     'armorword:doc-with:first-whole': 5, 'armorword:first-end:armour': 300,
+                     'armorword:first-end:plain': 450, 'armorword:first-mid:armour': 150, 'armorword:first-mid:plain':
+                     270, 'armorword:first-start:armour': 31, 'armorword:first-start:plain': 93,
+                     'armorword:first-whole:armour': 260, 'armorword:first-whole:plain': 610,
+                     'armorword:plain:Changes': 180, 'armorword:plain:Changes.iter_paragraphs': 450,
+                     'armorword:plain:Deb822': 200, 'armorword:plain:Dsc': 180, 'armorword:plain:Dsc.iter_paragraphs':
+                     450, 'armorword:plain:iter_paragraphs': 500, 'armorword:whole-document-as-one-bytes:Changes': 38,
+                     'armorword:whole-document-as-one-bytes:Changes.iter_paragraphs': 67,
+                     'armorword:whole-document-as-one-bytes:Deb822': 38, 'armorword:whole-document-as-one-bytes:Dsc':
+                     38, 'armorword:whole-document-as-one-bytes:Dsc.iter_paragraphs': 67,
+                     'armorword:whole-document-as-one-bytes:iter_paragraphs': 67,
+                     'armorword:whole-document-as-one-str:Changes': 38,
+                     'armorword:whole-document-as-one-str:Changes.iter_paragraphs': 67,
+                     'armorword:whole-document-as-one-str:Deb822': 38, 'armorword:whole-document-as-one-str:Dsc': 38,
+                     'armorword:whole-document-as-one-str:Dsc.iter_paragraphs': 67,
+                     'armorword:whole-document-as-one-str:iter_paragraphs': 67, 'doc:mv': 70,
+                     'mv:cont-blank-on-field-line:Changes': 110,
+                     'mv:cont-blank-on-field-line:Changes.iter_paragraphs': 170, 'mv:cont-blank-on-field-line:Deb822':
+                     120, 'mv:cont-blank-on-field-line:Dsc': 110, 'mv:cont-blank-on-field-line:Dsc.iter_paragraphs':
+                     170, 'mv:cont-blank-on-field-line:iter_paragraphs': 190, 'mv:cont:Changes': 330,
+                     'mv:cont:Changes.iter_paragraphs': 580, 'mv:cont:Deb822': 370, 'mv:cont:Dsc': 330,
+                     'mv:cont:Dsc.iter_paragraphs': 580, 'mv:cont:iter_paragraphs': 650, 'mv:doc-with-layout:cont':
+                     30, 'mv:doc-with-layout:cont-blank-on-field-line': 4, 'mv:doc-with-layout:mixed': 6,
+                     'mv:doc-with-layout:mixed-trailing-blank': 5, 'mv:doc-with-layout:single': 4,
+                     'mv:doc-with-layout:single-cont': 5, 'mv:doc-with-layout:single-cont-blank-on-field-line': 5,
+                     'mv:doc-with-layout:single-trailing-blank': 5, 'mv:mixed-trailing-blank:Changes': 150,
+                     'mv:mixed-trailing-blank:Changes.iter_paragraphs': 210, 'mv:mixed-trailing-blank:Deb822': 170,
+                     'mv:mixed-trailing-blank:Dsc': 150, 'mv:mixed-trailing-blank:Dsc.iter_paragraphs': 210,
+                     'mv:mixed-trailing-blank:iter_paragraphs': 230, 'mv:mixed:Changes': 130,
+                     'mv:mixed:Changes.iter_paragraphs': 230, 'mv:mixed:Deb822': 140, 'mv:mixed:Dsc': 130,
+                     'mv:mixed:Dsc.iter_paragraphs': 230, 'mv:mixed:iter_paragraphs': 250, 'mv:redump-route:bytes()':
+                     170, 'mv:redump-route:fd_b': 160, 'mv:redump-route:fd_b_enc': 230, 'mv:redump-route:fd_t': 220,
+                     'mv:redump-route:str': 210, 'mv:redump-route:str()': 200, 'mv:redump:Changes': 200,
+                     'mv:redump:Changes.iter_paragraphs': 310, 'mv:redump:Dsc': 260, 'mv:redump:Dsc.iter_paragraphs':
+                     440, 'mv:redump:cont-blank-on-field-line:Changes': 86, 'mv:redump:cont-blank-on-field-line:Dsc':
+                     87, 'mv:redump:cont:Changes': 190, 'mv:redump:cont:Dsc': 310,
+                     'mv:redump:mixed-trailing-blank:Changes': 93, 'mv:redump:mixed-trailing-blank:Dsc': 100,
+                     'mv:redump:mixed:Changes': 84, 'mv:redump:mixed:Dsc': 120,
+                     'mv:redump:single-cont-blank-on-field-line:Changes': 87,
+                     'mv:redump:single-cont-blank-on-field-line:Dsc': 100, 'mv:redump:single-cont:Changes': 65,
+                     'mv:redump:single-cont:Dsc': 120, 'mv:redump:single-trailing-blank:Changes': 61,
+                     'mv:redump:single-trailing-blank:Dsc': 93, 'mv:redump:single:Changes': 55,
+                     'mv:redump:single:Dsc': 95, 'mv:separator:several-blanks': 52, 'mv:separator:tab': 78,
+                     'mv:single-cont-blank-on-field-line:Changes': 140,
+                     'mv:single-cont-blank-on-field-line:Changes.iter_paragraphs': 200,
+                     'mv:single-cont-blank-on-field-line:Deb822': 160, 'mv:single-cont-blank-on-field-line:Dsc': 140,
+                     'mv:single-cont-blank-on-field-line:Dsc.iter_paragraphs': 200,
+                     'mv:single-cont-blank-on-field-line:iter_paragraphs': 220, 'mv:single-cont:Changes': 120,
+                     'mv:single-cont:Changes.iter_paragraphs': 220, 'mv:single-cont:Deb822': 140,
+                     'mv:single-cont:Dsc': 120, 'mv:single-cont:Dsc.iter_paragraphs': 220,
+                     'mv:single-cont:iter_paragraphs': 240, 'mv:single-trailing-blank:Changes': 110,
+                     'mv:single-trailing-blank:Changes.iter_paragraphs': 190, 'mv:single-trailing-blank:Deb822': 120,
+                     'mv:single-trailing-blank:Dsc': 110, 'mv:single-trailing-blank:Dsc.iter_paragraphs': 190,
+                     'mv:single-trailing-blank:iter_paragraphs': 210, 'mv:single:Changes': 100,
+                     'mv:single:Changes.iter_paragraphs': 180, 'mv:single:Deb822': 110, 'mv:single:Dsc': 100,
+                     'mv:single:Dsc.iter_paragraphs': 180, 'mv:single:iter_paragraphs': 200,
+                     'mv:source:armour-word-grid': 5, 'mv:source:layout-grid': 23, 'mv:source:random': 36},
+        'monitors': {'M.armorword': 3100, 'M.mv': 4300, 'M.mv.redump': 1200}},
+    'thorough': {
+        'counters': {'armorword:armour:Changes': 9700, 'armorword:armour:Changes.iter_paragraphs': 9700,
+                     'armorword:armour:Deb822': 10000, 'armorword:armour:Dsc': 9700,
+                     'armorword:armour:Dsc.iter_paragraphs': 9700, 'armorword:armour:iter_paragraphs': 10000,
+                     'armorword:cont-end:armour': 14000, 'armorword:cont-end:plain': 33000,
+                     'armorword:cont-mid:armour': 6900, 'armorword:cont-mid:plain': 16000,
+                     'armorword:cont-start:armour': 3600, 'armorword:cont-start:plain': 8900,
+                     'armorword:cont-whole:armour': 29000, 'armorword:cont-whole:plain': 62000,
+                     'armorword:doc-with:cont-end': 560, 'armorword:doc-with:cont-mid': 280,
+                     'armorword:doc-with:cont-start': 150, 'armorword:doc-with:cont-whole': 1000,
+                     'armorword:doc-with:first-end': 400, 'armorword:doc-with:first-mid': 170,
+                     'armorword:doc-with:first-start': 87, 'armorword:doc-with:first-whole': 600,
+                     'armorword:first-end:armour': 10000, 'armorword:first-end:plain': 23000,
+                     'armorword:first-mid:armour': 4200, 'armorword:first-mid:plain': 10000,
+                     'armorword:first-start:armour': 2100, 'armorword:first-start:plain': 5100,
+                     'armorword:first-whole:armour': 15000, 'armorword:first-whole:plain': 35000,
+                     'armorword:plain:Changes': 9700, 'armorword:plain:Changes.iter_paragraphs': 26000,
+                     'armorword:plain:Deb822': 10000, 'armorword:plain:Dsc': 9700,
+                     'armorword:plain:Dsc.iter_paragraphs': 26000, 'armorword:plain:iter_paragraphs': 29000,
+                     'armorword:whole-document-as-one-bytes:Changes': 2000,
+                     'armorword:whole-document-as-one-bytes:Changes.iter_paragraphs': 3800,
+                     'armorword:whole-document-as-one-bytes:Deb822': 2000,
+                     'armorword:whole-document-as-one-bytes:Dsc': 2000,
+                     'armorword:whole-document-as-one-bytes:Dsc.iter_paragraphs': 3800,
+                     'armorword:whole-document-as-one-bytes:iter_paragraphs': 3800,
+                     'armorword:whole-document-as-one-str:Changes': 2000,
+                     'armorword:whole-document-as-one-str:Changes.iter_paragraphs': 3800,
+                     'armorword:whole-document-as-one-str:Deb822': 2000, 'armorword:whole-document-as-one-str:Dsc':
+                     2000, 'armorword:whole-document-as-one-str:Dsc.iter_paragraphs': 3800,
+                     'armorword:whole-document-as-one-str:iter_paragraphs': 3800, 'doc:mv': 2800,
+                     'mv:cont-blank-on-field-line:Changes': 5400,
+                     'mv:cont-blank-on-field-line:Changes.iter_paragraphs': 11000,
+                     'mv:cont-blank-on-field-line:Deb822': 6000, 'mv:cont-blank-on-field-line:Dsc': 5400,
+                     'mv:cont-blank-on-field-line:Dsc.iter_paragraphs': 11000,
+                     'mv:cont-blank-on-field-line:iter_paragraphs': 13000, 'mv:cont:Changes': 17000,
+                     'mv:cont:Changes.iter_paragraphs': 33000, 'mv:cont:Deb822': 19000, 'mv:cont:Dsc': 17000,
+                     'mv:cont:Dsc.iter_paragraphs': 33000, 'mv:cont:iter_paragraphs': 37000,
+                     'mv:doc-with-layout:cont': 1700, 'mv:doc-with-layout:cont-blank-on-field-line': 630,
+                     'mv:doc-with-layout:mixed': 600, 'mv:doc-with-layout:mixed-trailing-blank': 600,
+                     'mv:doc-with-layout:single': 640, 'mv:doc-with-layout:single-cont': 630,
+                     'mv:doc-with-layout:single-cont-blank-on-field-line': 640,
+                     'mv:doc-with-layout:single-trailing-blank': 610, 'mv:mixed-trailing-blank:Changes': 5100,
+                     'mv:mixed-trailing-blank:Changes.iter_paragraphs': 11000, 'mv:mixed-trailing-blank:Deb822': 5700,
+                     'mv:mixed-trailing-blank:Dsc': 5100, 'mv:mixed-trailing-blank:Dsc.iter_paragraphs': 11000,
+                     'mv:mixed-trailing-blank:iter_paragraphs': 12000, 'mv:mixed:Changes': 5500,
+                     'mv:mixed:Changes.iter_paragraphs': 11000, 'mv:mixed:Deb822': 6100, 'mv:mixed:Dsc': 5500,
+                     'mv:mixed:Dsc.iter_paragraphs': 11000, 'mv:mixed:iter_paragraphs': 12000,
+                     'mv:redump-route:bytes()': 7500, 'mv:redump-route:fd_b': 7500, 'mv:redump-route:fd_b_enc': 9600,
+                     'mv:redump-route:fd_t': 9600, 'mv:redump-route:str': 9600, 'mv:redump-route:str()': 9600,
+                     'mv:redump:Changes': 9900, 'mv:redump:Changes.iter_paragraphs': 14000, 'mv:redump:Dsc': 11000,
+                     'mv:redump:Dsc.iter_paragraphs': 17000, 'mv:redump:cont-blank-on-field-line:Changes': 4400,
+                     'mv:redump:cont-blank-on-field-line:Dsc': 5700, 'mv:redump:cont:Changes': 13000,
+                     'mv:redump:cont:Dsc': 17000, 'mv:redump:mixed-trailing-blank:Changes': 3900,
+                     'mv:redump:mixed-trailing-blank:Dsc': 5500, 'mv:redump:mixed:Changes': 4400,
+                     'mv:redump:mixed:Dsc': 5500, 'mv:redump:single-cont-blank-on-field-line:Changes': 4600,
+                     'mv:redump:single-cont-blank-on-field-line:Dsc': 5800, 'mv:redump:single-cont:Changes': 4500,
+                     'mv:redump:single-cont:Dsc': 5700, 'mv:redump:single-trailing-blank:Changes': 4200,
+                     'mv:redump:single-trailing-blank:Dsc': 5400, 'mv:redump:single:Changes': 4500,
+                     'mv:redump:single:Dsc': 5900, 'mv:separator:several-blanks': 2900, 'mv:separator:tab': 4400,
+                     'mv:single-cont-blank-on-field-line:Changes': 5700,
+                     'mv:single-cont-blank-on-field-line:Changes.iter_paragraphs': 12000,
+                     'mv:single-cont-blank-on-field-line:Deb822': 6300, 'mv:single-cont-blank-on-field-line:Dsc':
+                     5700, 'mv:single-cont-blank-on-field-line:Dsc.iter_paragraphs': 12000,
+                     'mv:single-cont-blank-on-field-line:iter_paragraphs': 13000, 'mv:single-cont:Changes': 5600,
+                     'mv:single-cont:Changes.iter_paragraphs': 12000, 'mv:single-cont:Deb822': 6200,
+                     'mv:single-cont:Dsc': 5600, 'mv:single-cont:Dsc.iter_paragraphs': 12000,
+                     'mv:single-cont:iter_paragraphs': 13000, 'mv:single-trailing-blank:Changes': 5100,
+                     'mv:single-trailing-blank:Changes.iter_paragraphs': 11000, 'mv:single-trailing-blank:Deb822':
+                     5600, 'mv:single-trailing-blank:Dsc': 5100, 'mv:single-trailing-blank:Dsc.iter_paragraphs':
+                     11000, 'mv:single-trailing-blank:iter_paragraphs': 12000, 'mv:single:Changes': 5800,
+                     'mv:single:Changes.iter_paragraphs': 12000, 'mv:single:Deb822': 6400, 'mv:single:Dsc': 5800,
+                     'mv:single:Dsc.iter_paragraphs': 12000, 'mv:single:iter_paragraphs': 13000,
+                     'mv:source:armour-word-grid': 5, 'mv:source:layout-grid': 63, 'mv:source:random': 2800},
+        'monitors': {'M.armorword': 170000, 'M.mv': 170000, 'M.mv.redump': 53000}},
+}
+for _tier, _table in MV_FLOORS.items():
+    FLOORS[_tier]['counters'].update(_table['counters'])
+    FLOORS[_tier]['monitors'].update(_table['monitors'])
+    FLOORS[_tier]['counters']['api:Dsc.iter_paragraphs'] = FLOORS[_tier]['counters']['api:Changes.iter_paragraphs'] = \
+        {'quick': 2200, 'thorough': 90000}[_tier]            # ("asm" + "mv" classes together)
 
 # ---------------------------------------------------------------------------
 # workload generators (model side; no library code)
